@@ -701,6 +701,20 @@ func Compare(res *Result, errText string, isNil bool, checkOrder bool) string {
 	return ""
 }
 
+// bareSingle finds an expected single-member group of the unlabelled outermost
+// object that has not been matched yet.
+func bareSingle(res *Result, got, want map[string]int) string {
+	for i := range res.Groups {
+		g := &res.Groups[i]
+		if g.Kind == "single" && g.Obj == "" && len(g.Members) == 1 {
+			if k := "group " + g.Members[0]; got[k] < want[k] {
+				return k
+			}
+		}
+	}
+	return ""
+}
+
 func isSingle(groups []Exp, a Clause) bool {
 	for i := range groups {
 		if groups[i].Kind == "single" && (groups[i].Path == a.Path || (groups[i].Obj == "" && a.Kind == "bare")) {
@@ -799,6 +813,8 @@ func ComparePaths(res *Result, errText string, isNil bool) string {
 			default:
 				if _, ok := want["group "+a.Path]; ok && a.Kind == "field" {
 					got["group "+a.Path]++ // single-member group error names its field
+				} else if k := bareSingle(res, got, want); a.Kind == "bare" && k != "" {
+					got[k]++ // ... but an anonymous outermost type has no label, the clause is then bare
 				} else {
 					got[a.Path+" | "]++
 				}
